@@ -40,7 +40,7 @@ PLANS = {
                 what="trrel provider: history-interpreter programs, every access pattern inside the recursive SCC and in later strata"),
     "C12": dict(tags={"ds12"}, variants=["ser"], cap={"quick": 500, "thorough": 4000}, random={"quick": 80, "thorough": 600},
                 what="trrel_uf provider: history-interpreter programs, every access pattern inside the recursive SCC and in later strata"),
-    "C09": dict(tags={"pack"}, variants=["ser", "run", "mrt", "gen", "src0", "src1", "src2", "srcto", "srcred", "redecl", "init", "to",
+    "C09": dict(tags={"pack"}, variants=["ser", "run", "mrt", "gen", "src0", "src1", "src2", "srcto", "srcred", "redecl", "init", "init3", "runhead", "to",
                                          "runpar", "srcpar"],
                 cap={"quick": 50, "thorough": 400}, what="packaging variants of one logical program"),
 }
@@ -258,6 +258,29 @@ def run(pid, tier, seed, replay=None):
                     meta[cid] = dict(case=case, inputs={"first": c1["inputs"], "then": {r: c2["inputs"][r]}}, lm={}, prog=p)
                     nover += 1
         out.extra["overwrite_history_cases"] = nover
+    # head-only family (C09): a derivable tuple is handed to a relation that no rule body reads BEFORE the run (through the
+    # initialiser in the ascent_run! variants): it must not be derived a second time
+    if pid == "C09" and not replay:
+        import variants as _variants
+        nho = 0
+        for p in sel:
+            vs = [v for v in ("runhead", "run", "ser") if (p["name"], v) in mods]
+            if "runhead" not in vs:
+                continue
+            read = _variants.body_relations(p)
+            heads = [r["name"] for r in p["rels"] if not r["input"] and r["ds"] == "-" and r["kind"] == "rel" and r["name"] not in read]
+            pcs = [c for c in by.get(p["name"], []) if any(c["lm"].get(h) for h in heads)]
+            for c in select_cases(pcs, 12 if tier == "quick" else 100, rnd):
+                h = rnd.choice([h for h in heads if c["lm"].get(h)])
+                t = rnd.choice(c["lm"][h])
+                for v in vs:
+                    cid += 1
+                    ops = semlib.input_ops(p, c["inputs"]) + [{"op": "push", "rel": h, "rows": [t]}, {"op": "run"}]
+                    case = semlib.make_case(cid, p, pidx[p["name"]], v, ops)
+                    cases.append(case)
+                    meta[cid] = dict(case=case, inputs=dict(c["inputs"], **{h: [t]}), lm=c["lm"], prog=p)
+                    nho += 1
+        out.extra["head_only_prepushed_cases"] = nho
     # one extra case per program asks the compiled program for its plan (summary()); compared with SemiNaive!PlanOf
     plan_cases = {}
     if not replay:
